@@ -22,8 +22,11 @@ plus
         EV := (mk A NODE) | (hash A) | (inplace ((n Ty)*) A) | (obs A)
         (hash A) memoises every object reachable from A; R := (obs CONSISTENT Term|none) for every (obs A):
         CONSISTENT = the memo at A, if any, is the hash nest of the term A represents now
-  (sbheap KEYDEPTH ((mk A NODE)*) UA S N) -> (ok Term) | (none)
-        subst_bound run on the heap with its cache (Model.lean (e)): argument object UA (closed), body object S, depth N
+  (sbheap KEYDEPTH OPEN ((mk A NODE)*) UA S N) -> (ok Term) | (none)
+        subst_bound run on the heap with its cache (Model.lean (e),(f)): argument object UA (OPEN = t.is_open()), body object S, depth N
+  (incrheap ((mk A NODE)*) S INC)              -> (ok Term) | (none)     incr_boundvars(INC) on the heap
+  (substheap ((mk A NODE)*) ((n A)*) ((n A)*) S) -> (ok Term) | (none)   rec of Term.subst on the heap with its _id cache;
+        instances of schematic variables / of var_inst given as objects
   (history FIXED (EV*))           -> (ok R*) | (stuck K)
         EV := (mk A NODE) | (wrap A SRC) | (copy (A*) SRC) | (free A) | (eq A B) | (term A)
         NODE := (sv n Ty) | (v n Ty) | (c n Ty) | (ap A A) | (ab x Ty A) | (b i)
@@ -366,6 +369,25 @@ def buildHeap : List MEv → Heap → Option Heap
     | none => none
   | _ :: rest, h => buildHeap rest h
 
+def freshAddrs (es : List MEv) : List Addr :=
+  let top := es.foldl (fun t e => match e with
+    | .mk a _ => max t (a + 1)
+    | _ => t) 0
+  (List.range 4000).map (· + top)
+
+def readOut (h : Heap) (r : Addr) : String :=
+  match readTerm h FUEL r with
+  | some t => toString (Sexp.list [.atom "ok", termTo t])
+  | none => "(none)"
+
+def nameAddr : Sexp → Option (String × Addr)
+  | .list [.atom n, a] => do some (n, ← a.toNat?)
+  | _ => none
+
+/-- instance objects with the terms they represent -/
+def instH (h : Heap) (l : List (String × Addr)) : Option InstH :=
+  l.mapM fun (n, a) => (readTerm h FUEL a).map (fun t => (n, a, t))
+
 def handle (line : String) : String :=
   match Sexp.parse line with
   | some (.list [.atom "hashtree", a]) =>
@@ -426,23 +448,39 @@ def handle (line : String) : String :=
       | .ok rs => toString (Sexp.list (.atom "ok" :: rs))
       | .error k => toString (Sexp.list [.atom "stuck", Sexp.ofNat k])
     | _, _ => "bad-op"
-  | some (.list [.atom "sbheap", kd, .list evs, ua, s0, n0]) =>
-    match kd.toBool?, evs.mapM mevOf, ua.toNat?, s0.toNat?, n0.toNat? with
-    | some keyDepth, some es, some u, some sa, some n =>
+  | some (.list [.atom "sbheap", kd, op, .list evs, ua, s0, n0]) =>
+    match kd.toBool?, op.toBool?, evs.mapM mevOf, ua.toNat?, s0.toNat?, n0.toNat? with
+    | some keyDepth, some opn, some es, some u, some sa, some n =>
       match buildHeap es Heap.empty with
       | none => "(none)"
       | some h =>
-      let top := es.foldl (fun t e => match e with
-        | .mk a _ => max t (a + 1)
-        | _ => t) 0
-      let fresh := (List.range 4000).map (· + top)
-      match sbHeap keyDepth u FUEL h [] fresh sa n with
-      | some (h', _, _, r) =>
-        match readTerm h' FUEL r with
-        | some t => toString (Sexp.list [.atom "ok", termTo t])
-        | none => "(none)"
+      match sbHeap keyDepth opn FUEL u FUEL h [] (freshAddrs es) sa n with
+      | some (h', _, _, r) => readOut h' r
       | none => "(none)"
-    | _, _, _, _, _ => "bad-op"
+    | _, _, _, _, _, _ => "bad-op"
+  | some (.list [.atom "incrheap", .list evs, s0, inc]) =>
+    match evs.mapM mevOf, s0.toNat?, inc.toNat? with
+    | some es, some sa, some k =>
+      match buildHeap es Heap.empty with
+      | none => "(none)"
+      | some h =>
+      match incrHeap k FUEL h (freshAddrs es) sa 0 with
+      | some (h', _, r) => readOut h' r
+      | none => "(none)"
+    | _, _, _ => "bad-op"
+  | some (.list [.atom "substheap", .list evs, .list svs, .list vvs, s0]) =>
+    match evs.mapM mevOf, svs.mapM nameAddr, vvs.mapM nameAddr, s0.toNat? with
+    | some es, some sv, some vv, some sa =>
+      match buildHeap es Heap.empty with
+      | none => "(none)"
+      | some h =>
+      match instH h sv, instH h vv with
+      | some svh, some vvh =>
+        match substHeap svh vvh FUEL h [] (freshAddrs es) sa with
+        | some (h', _, _, r) => readOut h' r
+        | none => "(none)"
+      | _, _ => "(none)"
+    | _, _, _, _ => "bad-op"
   | some (.list [.atom "history", fx, .list evs]) =>
     match fx.toBool?, evs.mapM evOf with
     | some fixed, some es =>
